@@ -45,3 +45,8 @@ Definition check_count (fb : flat) : bool :=
   | ROk en => (possible_keys fb en =? Z.of_nat (length (all_valid (code_sem fb))))%Z
   | RErr _ => false
   end.
+
+(** with rejection: as many accepted keys as valid sequences *)
+Definition accepted_count_of (fb : flat) : nat := length (accepted_tseqs fb).
+Definition check_accepted_count (fb : flat) : bool :=
+  accepted_count_of fb =? length (all_valid (code_sem fb)).
